@@ -182,6 +182,15 @@ def run(ctx):
     # loops): what one of them leaves behind must not reach the next
     import interact
     pl += [("interaction", interact.script(ctx.rng)) for _ in range(ctx.n(60, 400))]
+    # texts that differ only in what a cache key might drop: blanks that decide how a complex literal is tokenised,
+    # a boolean variable where another script has the integer 0 or 1
+    HH = "name s\nversion 1.0\n\n"
+    pl += [("literal-spelling", HH + t) for t in (
+        "G(1+2j*3) | 0\n", "G(1 + 2j*3) | 0\n", "G(2-1j**2) | 0\n", "G(2 - 1j**2) | 0\n", "G(3/1+1j) | 0\n", "G(3/1 + 1j) | 0\n",
+        "G(2*3+4j) | 0\n", "G(2*3 + 4j) | 0\n")] * ctx.n(1, 4)
+    pl += [("function-of-bool-or-int", HH + t) for t in (
+        "bool b = True\nG(sin(b), cos(b), exp(b)) | 0\n", "G(sin(1), cos(1), exp(1)) | 0\n", "bool b = False\nG(cos(b), exp(b), sqrt(b)) | 0\n",
+        "G(cos(0), exp(0), sqrt(0)) | 0\n", "int n = 1\nG(sin(n), tanh(n)) | 0\n", "float x = 1.0\nG(sin(x), tanh(x)) | 0\n")] * ctx.n(1, 4)
     # the process changes its working directory between loads
     pl += [("chdir", CHDIR + d) for d in ("d1", "d2", ".", "d1", "d2")] * ctx.n(1, 6)
     lines = []
